@@ -180,7 +180,12 @@ func c12CheckIndent(text []byte, unit string) string {
 var c12ToJSON = MustCompile(`[tojson, tostring, @json, @text, (tojson | fromjson), ([.] | tojson), ({a: .} | tojson)]`)
 
 // c12Value checks one value in every mode.
-func c12Value(v any, full bool) string {
+func c12Value(v any, full bool) (msg string) {
+	defer func() {
+		if r := recover(); r != nil {
+			msg = fmt.Sprintf("panic in an encoder: %v", r)
+		}
+	}()
 	want := c12Norm(univ.Copy(v))
 	m, err := gojq.Marshal(v)
 	if err != nil {
@@ -287,13 +292,17 @@ func c12Containers(thorough bool) []any {
 		}
 		return v
 	}
-	depths := []int{0, 1, 2, 3, 7, 15, 16, 17, 31, 32, 33, 40}
+	// every depth: the indentation writers work in blocks (doubling copies), so each depth is its own case
+	var depths []int
+	for d := 0; d <= 100; d++ {
+		depths = append(depths, d)
+	}
+	depths = append(depths, 129, 200)
 	if thorough {
-		depths = nil
-		for d := 0; d <= 70; d++ {
+		for d := 101; d <= 260; d++ {
 			depths = append(depths, d)
 		}
-		depths = append(depths, 129, 200)
+		depths = append(depths, 500, 1000)
 	}
 	for _, d := range depths {
 		out = append(out, nest(d, true), nest(d, false))
@@ -556,7 +565,7 @@ func init() {
 	engine.Register(&engine.Check{
 		ID:    "C12",
 		Level: "exploration",
-		Rule: "all strings of length <= 2 over a 48-piece byte alphabet (control bytes, quote, backslash, DEL, every UTF-8 lead/continuation class, surrogate encodings, U+2028/9, U+FFFD, boundary code points; all strings of length 3 over all of them, thorough also length 4 over 18 of them) as value, object key and nested; ~50 numbers (float64 bit-pattern classes and format thresholds, NaN/inf, json.Number literals, big integers); containers of depth 0..40 (thorough 0..70,129,200), width up to 1000 (9000), sizes around the 8 KiB flush threshold; " +
+		Rule: "all strings of length <= 2 over a 48-piece byte alphabet (control bytes, quote, backslash, DEL, every UTF-8 lead/continuation class, surrogate encodings, U+2028/9, U+FFFD, boundary code points; all strings of length 3 over all of them, thorough also length 4 over 18 of them) as value, object key and nested; ~50 numbers (float64 bit-pattern classes and format thresholds, NaN/inf, json.Number literals, big integers); containers of every depth 0..100, 129, 200 (thorough every depth to 260, 500, 1000), width up to 1000 (9000), sizes around the 8 KiB flush threshold; " +
 			"each rendered by Marshal, tojson, tostring, @json, @text and the command's encoder in every option combination (compact, indent 0..9, tab, each plain and coloured), read back with encoding/json and compared (modulo NaN->null, inf saturation, U+FFFD per invalid byte), all modes compared modulo insignificant white space and SGR sequences, indentation = depth x unit on every line; encoder/Marshal reuse histories; the same strings through the real command line and a YAML output/input round trip.",
 		Assume:         []string{"encoding/json is the reader; go-yaml is exercised but its own quoting decisions are trusted as long as the text reads back equal"},
 		Run:            c12Run,
